@@ -120,7 +120,7 @@ def special_packets(rng, n):
 def run(ctx):
     q = ctx.quick
     rng = ctx.rng
-    ctx.rule = ("Decode.tla (container walk state machine) run by TLC on every container forest of 2 and 3 containers (4: sampled) x every "
+    ctx.rule = ("Decode.tla (container walk state machine) run by TLC on every container forest of 2 containers and sampled forests of 3 and 4 x every "
                 "abstract-flag subset x nested-container placements x parameter widths {1,2} x one or two overlapping restriction criteria "
                 "per edge x ALL packets of the resulting length, with invariants CursorIsSum / PathOK / ChosenSatisfied at every step; "
                 "plus hand-shaped structures (full header root, boolean criteria, reused nested container, ambiguity at depth 2) with "
@@ -129,25 +129,45 @@ def run(ctx):
                 "distinct = (definition, route, packet).")
     ctx.assumptions = ["the packet is a mapping: a name decoded twice keeps its first position and last value (DESIGN C05)",
                        "criteria whose operands are missing are 'undefined': any outcome accepted"]
-    groups = []
-    for ncont, sample in ((2, None), (3, 700 if q else None), (4, 250 if q else 4000)):
+    # definitions are processed in batches so that the harness never holds more than a few thousand definitions with their packets and
+    # observations (the full 3-container space is 56 000 definitions x up to 128 packets: sampled in both tiers, all of it only for 2)
+    st, ndefs, npk, keep = {}, 0, 0, []
+
+    def flush(groups):
+        nonlocal ndefs, npk
+        if not groups:
+            return
+        ndefs += len(groups)
+        npk += sum(len(g["pkts"]) for g in groups)
+        for k_, v_ in dc.run_groups(ctx, "C05", groups, "walk").items():
+            st[k_] = st.get(k_, 0) + v_
+        if not keep:
+            keep.append(groups[len(groups) // 2])
+    for ncont, sample in ((2, None), (3, 700 if q else 9000), (4, 250 if q else 4000)):
         defs_ = forest_defns(ncont, (1, 2) if ncont < 4 else (1,), rng, sample)
+        groups = []
         for i, d in enumerate(defs_):
             nb = max_bits(d)
             pk = list(all_packets(nb)) if nb <= 7 else [list(rng.getrandbits(8 * max(2, (nb + 7) // 8)).to_bytes(max(2, (nb + 7) // 8), "big")) for _ in range(96)]
             groups.append({"defn": d, "pkts": pk, "route": ROUTES[i % len(ROUTES)], "label": f"forest{ncont}"})
+            if len(groups) >= 1500:
+                flush(groups)
+                groups = []
+        flush(groups)
+        del defs_
+    groups = []
     for d in special_defns():
         for r in ROUTES:
             groups.append({"defn": d, "pkts": special_packets(rng, 300 if q else 3000), "route": r, "label": "special"})
-    ctx.extra["definitions"] = len(groups)
-    ctx.extra["packets"] = sum(len(g["pkts"]) for g in groups)
-    st = dc.run_groups(ctx, "C05", groups, "walk")
+    flush(groups)
+    ctx.extra["definitions"] = ndefs
+    ctx.extra["packets"] = npk
     ctx.extra["model_status_counts"] = st
     for need in ("ok", "unrec"):
         if not st.get(need):
             ctx.vacuity(f"no case ended with model status {need}")
     ctx.exhaustive = True
-    g = groups[len(groups) // 2]
+    g = keep[0]
     ctx.sample({"definition_containers": g["defn"]["containers"], "route": list(g["route"]), "packet": g["pkts"][3]}, limit=2)
     ctx.sample({"definition": "special CCSDS-header structure", "containers": list(groups[-1]["defn"]["containers"]),
                 "packet": groups[-1]["pkts"][0]}, limit=3)
